@@ -168,6 +168,17 @@ pub fn a_extreme() -> Vec<Op> {
         v.push(Op::raw(&format!("\x1b[38;5;{}m\x1b[48;2;{};{};{}m", n, n, n, n)));
         v.push(Op::raw(&format!("\x1b[38:5:{}m\x1b[48:2:{}:{}:{}m", n, n, n, n)));
     }
+    // complete colour forms with each component at the byte boundary and beyond
+    for ground in [38, 48] {
+        for sep in [';', ':'] {
+            for n in ["255", "256", "65535", "65536", "99999999999"] {
+                for (r, g, b) in [(n, "0", "0"), ("0", n, "0"), ("0", "0", n), (n, n, n)] {
+                    v.push(Op::raw(&format!("\x1b[{g0}{s}2{s}{r}{s}{g}{s}{b}m", g0 = ground, s = sep, r = r, g = g, b = b)));
+                }
+                v.push(Op::raw(&format!("\x1b[1;{g0}{s}5{s}{n};4m", g0 = ground, s = sep, n = n)));
+            }
+        }
+    }
     // 40 parameters, 9 sub-parameters
     let many = vec!["7"; 40].join(";");
     v.push(Op::raw(&format!("\x1b[{}m", many)));
